@@ -52,7 +52,7 @@ Apply(T, c, e) ==
 (* ---- case-level monitors ------------------------------------------------- *)
 AllLexed(r) == \A i \in 1 .. Len(r.lex) : r.lex[i][3] >= 0
 
-Monitors(r, prev) ==
+Monitors(r, prev, prev2) ==
   LET T == Dumps[r.g].t
       C == Ctxs[r.g]
       w == LexKinds(r.lex)
@@ -91,11 +91,14 @@ Monitors(r, prev) ==
       c13 == IF ok THEN C13TreeWs(r.bytes, r.tree, wsl) ELSE {}
       \* C14, second sentence: the same tokens with other layout between them give the same tree
       \* (prev is then the plain rendering of the same token string)
-      twin == "twin" \in DOMAIN r.meta /\ r.meta.twin = "layout" /\ prev.iid = r.iid /\ prev.id = r.id
-              /\ ~prev.partial /\ ~r.partial
-      c14t == IF ~twin \/ prev.res.k \notin {"ok", "err"} \/ r.res.k \notin {"ok", "err"} THEN {}
-              ELSE IF prev.res.k # r.res.k THEN {<<"layout_changes_result", prev.res.k, r.res.k>>}
-              ELSE IF ok /\ ShapeK(prev.tree) # ShapeK(r.tree) THEN {<<"layout_changes_tree">>}
+      \* (records come as plain/full, plain/partial, layout/full, layout/partial: the partner of
+      \* a layout record is the plain record with the same partial flag, one or two records back)
+      Partner(x) == x.iid = r.iid /\ x.id = r.id /\ x.partial = r.partial /\ "twin" \notin DOMAIN x.meta
+      tw == IF Partner(prev) THEN prev ELSE prev2
+      twin == "twin" \in DOMAIN r.meta /\ r.meta.twin = "layout" /\ Partner(tw)
+      c14t == IF ~twin \/ tw.res.k \notin {"ok", "err"} \/ r.res.k \notin {"ok", "err"} THEN {}
+              ELSE IF tw.res.k # r.res.k THEN {<<"layout_changes_result", tw.res.k, r.res.k>>}
+              ELSE IF ok /\ ShapeK(tw.tree) # ShapeK(r.tree) THEN {<<"layout_changes_tree">>}
               ELSE {}
       c14 == (IF ok /\ ~r.partial THEN C14Tree(r.bytes, r.tree, wsl) ELSE {}) \cup c14t
       c15 == IF r.res.k \in {"ok", "err"} THEN {} ELSE {<<r.res.k, r.res.msg>>}
@@ -116,8 +119,9 @@ NextCase ==
   /\ div' = ""
   /\ LET r == Traces[ci + 1]
          prev == IF ci >= 1 THEN Traces[ci] ELSE r
+         prev2 == IF ci >= 2 THEN Traces[ci - 1] ELSE r
      IN PrintT(<<"VERDICT", ToJson([id |-> r.id, iid |-> r.iid, g |-> r.g, partial |-> r.partial,
-                                     nev |-> Len(r.ev), mon |-> Monitors(r, prev)])>>)
+                                     nev |-> Len(r.ev), mon |-> Monitors(r, prev, prev2)])>>)
 
 \* the layout parser is not logged; that it ran is inferred from the logged context
 \* position having moved past the end of the last shifted token
